@@ -540,6 +540,62 @@ for _f, _id in ((sign_handlers, "C11.SIGN-handlers"), (sign_heaps, "C11.SIGN-hea
                 (dom_invalidate, "C11.DOM-invalidate"), (dom_bracket, "C11.DOM-bracket"), (data_swap, "C11.DATA-swap")):
     _f.rule_id = _id
 
+def data_remove_parent(ctx, prog, R="C11.DATA-remove-parent"):
+    ctx.rule(R, "remove_parent's swap-remove bookkeeping: parent.slot[child_index] := -1; the moved (last) parent's "
+                "slot[end_child_index] := parent_index; child.back[parent_index] := end_child_index (the MOVED parent's "
+                "input slot, read from child.back[last]); child.back[last] := -1")
+    from .facts import Place
+    F = ctx.need_fn(R, q.NODE_IMPL + "remove_parent")
+    if F is None:
+        return
+    du = DefUse(F)
+    P, A = "my_parent_index_in_child_at_index", "my_child_index_in_parent_at_index"
+
+    def norm(e):
+        s_ = show(e)
+        # symbolic names for the quantities of the function
+        s_ = s_.replace("borrow_mut(", "(").replace("borrow(", "(")
+        return s_
+    PARENT_IDX = "index((parent_child_indices(erased(arg3))).%s, arg2)" % P
+    LAST = "Sub(len((arg1.parents)), 1)"
+    END_CHILD = "index((arg1.parent_child_indices).%s, %s)" % (A, LAST)
+    want = {
+        ("index_mut((parent_child_indices(erased(arg3))).%s, arg2)" % P, "-1"),
+        ("index_mut((arg1.parent_child_indices).%s, %s)" % (A, PARENT_IDX), END_CHILD),
+        ("index_mut((arg1.parent_child_indices).%s, %s)" % (A, LAST), "-1"),
+    }
+    got = set()
+    moved = None
+    for st in F.stmts():
+        if st.dst is None or st.dst.proj != ["deref"] or F.is_cleanup(st.bb) or q.is_debug_assert(st):
+            continue
+        base = expr(F, Place({"local": st.dst.local, "proj": []}), du)
+        if not (base[0] == "call" and base[1].endswith("::index_mut")):
+            continue
+        val = expr(F, st.rv["use"], du) if "use" in (st.rv or {}) else ("?",)
+        b, v = norm(base), norm(val)
+        ctx.site(R, F, "bb%d %s := %s" % (st.bb, b[-90:], v[-80:]))
+        if "upgrade(" in b and b.endswith("%s, %s)" % (P, END_CHILD)):
+            moved = (b, v)       # the moved parent's table, indexed by end_child_index
+        else:
+            got.add((b, v))
+    bad = []
+    if got != want:
+        bad.append("stores %s, specified %s" % (sorted(got - want), sorted(want - got)))
+    if moved is None or moved[1] != PARENT_IDX:
+        bad.append("the moved parent's slot is %s" % (moved,))
+    if bad:
+        ctx.fail(R, "swap-remove", "remove_parent's index bookkeeping differs from the specification: %s. After removing a "
+                 "parent that is not the last one, the moved parent and the child disagree about their positions; a later "
+                 "unlink indexes out of bounds or removes the wrong edge" % "; ".join(bad)[:900], fn=F)
+    else:
+        ctx.ok(R, "swap-remove")
+    ctx.floor(R, len(got) + (1 if moved else 0), 4)
+
+
+data_remove_parent.rule_id = "C11.DATA-remove-parent"
+
+
 def heights_edge_ends(ctx, prog):
     """Height bookkeeping: the adjust pass names the right ends of every edge and visits every rhs node of a bind
     (C02.DATA-edge-ends, C02.GUARD-every-rhs-node), otherwise a needed node ends at or below the bind that created it."""
@@ -647,7 +703,7 @@ def wmc_truncating(ctx, prog):      # noqa: F811
 
 wmc_truncating.rule_id = "C11.WMC-truncating"
 
-RULES = [sign_handlers, sign_heaps, wmw_markers, guard_stats, dom_invalidate, dom_bracket, data_swap, heights_edge_ends, wmc_truncating]
+RULES = [sign_handlers, sign_heaps, wmw_markers, guard_stats, dom_invalidate, dom_bracket, data_swap, heights_edge_ends, wmc_truncating, data_remove_parent]
 
 # control signature of the bookkeeping effects this property depends on (rules/ctrlsig.py)
 from .ctrlsig import make_rule as _ctrl_rule  # noqa: E402
